@@ -287,6 +287,7 @@ func suiteSessions(e *vh.Env) {
 		}
 	}
 	sessionsInFlightEviction(e, n)
+	sessionsTrailerCookie(e, n+1000)
 }
 
 // sessionsInFlightEviction: a response that arrives after its session was pushed out of the cache and then used
@@ -354,6 +355,32 @@ func sessionsInFlightEviction(e *vh.Env, base int) {
 		e.Eval(fmt.Sprintf("inflight-eviction-%d", k), true)
 		e.Count("in-flight-eviction")
 	}
+}
+
+// sessionsTrailerCookie: a backend that sends Set-Cookie as an HTTP trailer (declared with `Trailer: Set-Cookie`, set
+// after the body - which is how httputil.ReverseProxy hands a backend's trailers to its ResponseWriter).
+func sessionsTrailerCookie(e *vh.Env, base int) {
+	if !e.Want(base) {
+		return
+	}
+	cache := sessions.NewCache(sessName, time.Hour, 4, true)
+	backend := http.HandlerFunc(func(w http.ResponseWriter, r *http.Request) {
+		w.Header().Set("Trailer", "Set-Cookie")
+		w.WriteHeader(200)
+		w.Write([]byte("body"))
+		w.Header().Set("Set-Cookie", "leak=1; Path=/")
+	})
+	h := cache.SessionHandler(backend, nil)
+	rw := httptest.NewRecorder()
+	h.ServeHTTP(rw, httptest.NewRequest("GET", "http://app.example/", nil))
+	res := rw.Result()
+	for _, raw := range res.Trailer["Set-Cookie"] {
+		if !strings.HasPrefix(raw, sessName+"=") {
+			e.Fail("C10:backend-cookie-leaked:as-trailer", fmt.Sprintf("the backend sent Set-Cookie %q as a declared HTTP trailer; it reached the client as a trailer", raw), base, nil, raw, nil)
+		}
+	}
+	e.Eval("trailer-set-cookie", true)
+	e.Count("trailer-set-cookie")
 }
 
 // interimRecorder: a ResponseRecorder that, like a real server connection, lets 1xx responses (other than 101)
